@@ -518,8 +518,8 @@ func convertStringToTv(schemaType *sdcpb.SchemaLeafType, v string, ts uint64) (*
 			Timestamp: ts,
 			Value:     &sdcpb.TypedValue_StringVal{StringVal: v},
 		}, nil
-	case "bits", "binary":
-		// carried as strings (the names of the set bits / the base64 encoded data)
+	case "bits", "binary", "instance-identifier":
+		// carried as strings (the names of the set bits / the base64 encoded data / the instance path)
 		return &sdcpb.TypedValue{
 			Timestamp: ts,
 			Value:     &sdcpb.TypedValue_StringVal{StringVal: v},
